@@ -172,6 +172,8 @@ SHAPES = [
     ("[user,l]", lambda l0, l1, l2, h, c: [USER, l0], 1),
     ("bytes", lambda l0, l1, l2, h, c: b"x", 0),
 ]
+QUICK_SHAPES = {"([l],l)", "leaf", "[]", "[l]", "[l,l]", "{h}", "{}", "{h:l}", "()", "(l,)", "(l,l)", "(l,l,l)", "[[l]]", "{'k':[l]}", "class", "user", "usersub", "spec", "bytes"}
+BOUNDED_SHAPES = {"leaf", "[l]", "(l,l)", "{h:l}", "[]", "class"}
 USES_H = {"{h}", "{h:l}", "[{h:l}]"}
 USES_C = {"class", "[class]"}
 
@@ -202,19 +204,20 @@ def mkleaf(k, i, s, fi, rich=True):
     return None
 
 
-THOROUGH = [False]
+def make_harness(label, Tref, nbounds=0, thorough=False):
+    shapes = [sh for sh in SHAPES if (thorough and not nbounds) or (sh[0] in BOUNDED_SHAPES if nbounds else sh[0] in QUICK_SHAPES) or (thorough and nbounds and sh[0] in QUICK_SHAPES)]
+    blo, bhi = (-2, 2) if (nbounds == 1 or thorough) else (-1, 1)
+    rich0 = lambda nleaves: "full" if (nleaves == 1 or thorough) else True
 
-
-def make_harness(label, Tref, nbounds=0):
     """Tref: reference annotation, or a function(b0, b1) -> reference annotation when bounds are symbolic."""
 
     def h(sel: int, k0: int, i0: int, s0: str, f0: int, k1: int, i1: int, s1: str, f1: int, hi: int, ci: int, b0: int, b1: int) -> str:
-        name, build, nleaves = pick(SHAPES, sel)
+        name, build, nleaves = pick(shapes, sel)
         l0 = l1 = None
         if nleaves >= 1:
-            l0 = mkleaf(k0, i0, s0, f0, rich="full" if (nleaves == 1 or THOROUGH[0]) else True)
+            l0 = mkleaf(k0, i0, s0, f0, rich=rich0(nleaves))
         if nleaves >= 2:
-            l1 = mkleaf(k1, i1, s1, f1, rich=THOROUGH[0])
+            l1 = mkleaf(k1, i1, s1, f1, rich=thorough)
         l2 = l0
         hv = cv = None
         if name in USES_H:
@@ -222,9 +225,9 @@ def make_harness(label, Tref, nbounds=0):
         if name in USES_C:
             cv = pick(CLSPOOL, ci)
         if nbounds:
-            assume(-2 <= b0 <= 2)
+            assume(blo <= b0 <= bhi)
             if nbounds > 1:
-                assume(-2 <= b1 <= 2)
+                assume(blo <= b1 <= bhi)
             T = Tref(b0, b1)
         else:
             T = Tref
@@ -244,7 +247,7 @@ def make_harness(label, Tref, nbounds=0):
 
 def _warm(nb):
     out = []
-    for sel in range(len(SHAPES)):
+    for sel in range(6):
         for k0 in range(6):
             out.append((sel, k0, 3, "r", (sel + k0) % len(FPOOL), (k0 + sel) % 6, 0, "w", sel % len(FPOOL), sel % len(HPOOL), sel % len(CLSPOOL), 0, 1))
     return out
@@ -339,15 +342,17 @@ def annotations(tier):
 
 def obligations(tier):
     obs = []
-    THOROUGH[0] = tier == "thorough"
     T = 200 if tier == "quick" else 900
+    quick_skip = {"List[float]", "Tuple[float,...]", "Tuple[Any,...]", "List[UserCls]", "Tuple[UserCls,...]", "Tuple[None,...]", "Set[bool]", "Dict[str,bool]", "Optional[bool]", "Type[bool]", "Type[SpecCls]", "List[None]", "Tuple[str,...]", "Dict[Any,float]", "tuple[int,str]", "set[str]", "List[Type[int]]", "Optional[List[str]]", "bounded(float,le=b)", "bounded(float,ge=b)", "bounded(int,gt=b)", "bounded(int,le=b)"}
     for label, Tref, nb in annotations(tier):
+        if tier == "quick" and label in quick_skip:
+            continue
         obs.append(
             Ob(
                 f"C15.{label}",
-                make_harness(label, Tref, nb),
+                make_harness(label, Tref, nb, tier == "thorough"),
                 _warm(nb),
-                f"annotation {label}; value = one of {len(SHAPES)} shapes (scalar, list/set/dict/tuple of lengths 0..3, nested, classes from a pool of {len(CLSPOOL)}, user/spec instances) selected by a symbolic index, each leaf = symbolic kind selector over {int,str,float,True,False,None} with unbounded symbolic int/str payload and float payload from a pool of 11 values (all integer bound values, +-0.5 around them, +-inf; NaN excluded); a third leaf position repeats the first leaf, hashed elements from a pool of {len(HPOOL)}; bounds symbolic ints in [-2,2]",
+                f"annotation {label}; value = one of {len(SHAPES) if tier == 'thorough' else (len(BOUNDED_SHAPES) if nb else len(QUICK_SHAPES))} shapes (scalar, list/set/dict/tuple of lengths 0..3, nested, classes from a pool of {len(CLSPOOL)}, user/spec instances) selected by a symbolic index, each leaf = symbolic kind selector over {int,str,float,True,False,None} with unbounded symbolic int/str payload and float payload from a pool of 11 values (all integer bound values, +-0.5 around them, +-inf; NaN excluded); a third leaf position repeats the first leaf, hashed elements from a pool of {len(HPOOL)}; bounds symbolic ints in [-2,2] ([-1,1] for two-sided bounds in the quick tier)",
                 expect={"accept", "reject"} if label != "Any" else {"accept"},
                 timeout=T,
                 stub_repr=True,
